@@ -23,7 +23,9 @@ HEADER = ("From Coq Require Import ZArith QArith String List.\nImport ListNotati
           "From VTL Require Import Base.Val Model.Table Model.Scalar Model.Expr Model.Join.\nOpen Scope string_scope.\n")
 
 KINDS = {"inner_join": "JInner", "left_join": "JLeft", "full_join": "JFull", "cross_join": "JCross"}
-ID_DOM = {"Id_1": ("Integer", [1, 2, 3, 4]), "Id_2": ("String", ["A", "B", "C"]), "K": ("Integer", [7, 8, 9])}
+ID_DOM = {"Id_1": ("Integer", [1, 2, 3, 4]), "Id_2": ("String", ["A", "B", "C"]), "Id_3": ("Integer", [5, 6]),
+          "K": ("Integer", [7, 8, 9])}
+ALL_IDS = ["Id_1", "Id_2", "Id_3"]
 # stable key of a defect repaired in /repo (fix 94e8b5c); not a known finding: its return is a VIOLATION
 REGRESSION_FULL3 = "full_join:3-operands:key-missing-in-first-operand"
 
@@ -47,27 +49,53 @@ def _keys(rng, ids, base: Optional[set], cls: str):
     return ks
 
 
-def gen_inputs(rng, n_ops: int, config: str):
-    """datasets DS_1..DS_n; returns (dss, meta).  config: equal1 | equal2 | nested | using_measure | using_ids"""
+def _pick_ids(rng, k: int):
+    chosen = rng.sample(ALL_IDS, k)
+    return [n for n in ALL_IDS if n in chosen]
+
+
+def _subset(rng, W):
+    sub = [n for n in W if rng.random() < 0.55]
+    return sub or [rng.choice(W)]
+
+
+def id_sets_for(rng, n_ops: int, config: str):
+    """identifier lists of the operands (each in the order of ALL_IDS) and the name of the arrangement.
+    equal: one list for all; nested: one operand carries W (2-3 identifiers), every other one a non-empty subset of W (possibly W
+    again, possibly sets that only overlap among themselves), in one of the orders widest-first / narrowest-first / any"""
+    if config == "equal":
+        ids = _pick_ids(rng, rng.choice([1, 2, 2, 3]))
+        return [list(ids) for _ in range(n_ops)], f"equal{len(ids)}"
+    if config == "nested":
+        W = _pick_ids(rng, rng.choice([2, 2, 3]))
+        sets = [list(W)] + [_subset(rng, W) for _ in range(n_ops - 1)]
+        order = rng.choice(["widest-first", "narrowest-first", "narrowest-first", "any"])
+        rest = sets[1:]
+        rng.shuffle(rest)
+        sets = [sets[0]] + rest
+        if order == "narrowest-first":
+            sets.sort(key=len)
+        elif order == "any":
+            rng.shuffle(sets)
+        return sets, order
+    if config == "using_measure":
+        first = _pick_ids(rng, rng.choice([1, 2]))
+        return [first] + [["K"] for _ in range(n_ops - 1)], "using_measure"
+    full = _pick_ids(rng, rng.choice([1, 2, 2, 3]))      # using_ids
+    return [list(full) for _ in range(n_ops)], f"using_ids{len(full)}"
+
+
+def gen_inputs(rng, n_ops: int, config: str, max_rows: int = 12):
+    """datasets DS_1..DS_n; returns (dss, meta).  config: equal | nested | using_measure | using_ids.
+    The keys of every operand are drawn around the projections of ONE set of full keys, so that matches across any pair of operands
+    are frequent and an operand with more identifiers has several datapoints per key of a narrower one"""
     dss, classes = {}, []
     pool = ["Me_1", "Me_2", "Me_3", "Me_4"]
     dup_mode = rng.choice(["dup", "dup", "distinct", "mixed"])
-    id_sets = []
-    if config == "equal1":
-        id_sets = [["Id_1"]] * n_ops
-    elif config == "equal2":
-        id_sets = [["Id_1", "Id_2"]] * n_ops
-    elif config == "nested":
-        small = [rng.choice([["Id_1"], ["Id_2"]]) for _ in range(n_ops - 1)]
-        id_sets = [["Id_1", "Id_2"]] + small
-        if rng.random() < 0.4:          # the operand with most identifiers not first (legal for inner_join only)
-            rng.shuffle(id_sets)
-    elif config == "using_measure":
-        id_sets = [rng.choice([["Id_1"], ["Id_1", "Id_2"]])] + [["K"]] * (n_ops - 1)
-    elif config == "using_ids":
-        full = rng.choice([["Id_1"], ["Id_1", "Id_2"]])
-        id_sets = [full] + [list(full) for _ in range(n_ops - 1)]
-    base = None
+    id_sets, arrangement = id_sets_for(rng, n_ops, config)
+    W = [n for n in ALL_IDS if any(n in s for s in id_sets)]
+    universe = list(itertools.product(*[ID_DOM[n][1] for n in W]))
+    base_full = [k for k in universe if rng.random() < 0.5] or [rng.choice(universe)]
     used = 0
     for i in range(1, n_ops + 1):
         ids = id_sets[i - 1]
@@ -75,31 +103,22 @@ def gen_inputs(rng, n_ops: int, config: str):
         if dup_mode == "dup":
             names = rng.sample(pool, nm)
         elif dup_mode == "distinct":
-            names = [f"Me_{used + j + 1}{'abc'[i - 1]}" for j in range(nm)]
+            names = [f"Me_{used + j + 1}{'abcd'[i - 1]}" for j in range(nm)]
             used += nm
         else:
-            names = [rng.choice(pool[:2])] + [f"Me_{j + 5}{'abc'[i - 1]}" for j in range(nm - 1)]
+            names = [rng.choice(pool[:2])] + [f"Me_{j + 5}{'abcd'[i - 1]}" for j in range(nm - 1)]
         ms = [(n, rng.choice(G.BASIC)) for n in names]
         if config == "using_measure" and i == 1:
             ms.append(("K", "Integer"))
-        cls = "base" if i == 1 else rng.choice(["disjoint", "partial", "partial", "equal", "superset", "superset"])
         if config == "using_measure" and i > 1:
             keys = [k for k in itertools.product(ID_DOM["K"][1]) if rng.random() < 0.7]
             cls = "k-subset"
         else:
-            proj = None
-            if base is not None:
-                # project the first operand's keys on this operand's identifiers (or extend them when it has more)
-                b_ids = id_sets[0]
-                if set(ids) <= set(b_ids):
-                    proj = {tuple(k[b_ids.index(n)] for n in ids) for k in base}
-                else:
-                    proj = {k2 for k2 in itertools.product(*[ID_DOM[n][1] for n in ids])
-                            if tuple(k2[ids.index(n)] for n in b_ids if n in ids) in
-                            {tuple(k[b_ids.index(n)] for n in b_ids if n in ids) for k in base}}
+            cls = rng.choice(["equal", "equal", "equal", "partial", "partial", "partial", "superset", "superset", "superset", "disjoint"])
+            proj = {tuple(k[W.index(n)] for n in ids) for k in base_full}
             keys = _keys(rng, ids, proj, cls)
-        if i == 1:
-            base = set(keys)
+        if len(keys) > max_rows:
+            keys = rng.sample(keys, max_rows)
         rows = []
         for k in keys:
             vals = []
@@ -112,7 +131,7 @@ def gen_inputs(rng, n_ops: int, config: str):
         rng.shuffle(rows)
         classes.append(cls)
         dss[f"DS_{i}"] = {"shape": G.Shape([(n, ID_DOM[n][0]) for n in ids], ms), "rows": rows}
-    return dss, {"dup_mode": dup_mode, "overlap": classes[1:]}
+    return dss, {"dup_mode": dup_mode, "overlap": classes, "arrangement": arrangement}
 
 
 # ------------------------------------------------------------------ structure mirror (only used to propose clauses)
@@ -316,21 +335,22 @@ JOIN_CODES_MODELLED = {"1-1-13-9", "1-1-13-8", "1-1-13-13", "1-1-13-12", "1-1-13
 
 def make_case(rng, malformed=False, tries=30):
     for _ in range(tries):
-        n_ops = rng.choice([2, 2, 2, 3, 3])
+        n_ops = rng.choice([2, 2, 3, 3, 3, 4])
         if malformed:
-            config = rng.choice(["equal1", "equal2", "nested", "nested", "using_measure", "using_ids"])
+            config = rng.choice(["equal", "equal", "nested", "nested", "using_measure", "using_ids"])
             kind = rng.choice(list(KINDS))
         else:
-            config = rng.choice(["equal1", "equal2", "equal2", "nested", "nested", "using_measure", "using_ids"])
-            kind = {"equal1": ["inner_join", "left_join", "full_join", "full_join", "cross_join"],
-                    "equal2": ["inner_join", "left_join", "full_join", "full_join", "cross_join"],
-                    "nested": ["inner_join", "inner_join", "left_join", "left_join", "cross_join"],
+            config = rng.choice(["equal", "equal", "nested", "nested", "nested", "using_measure", "using_ids"])
+            kind = {"equal": ["inner_join", "left_join", "full_join", "full_join", "cross_join"],
+                    "nested": ["inner_join", "inner_join", "inner_join", "left_join", "left_join", "cross_join"],
                     "using_measure": ["inner_join", "left_join"], "using_ids": ["inner_join", "left_join"]}[config]
             kind = rng.choice(kind)
-        dss, meta = gen_inputs(rng, n_ops, config)
+        # row caps keep products (cross joins, and inner joins on few keys) small enough to evaluate in Coq
+        cap = {2: 12, 3: 8, 4: 5}[n_ops] if kind != "cross_join" else {2: 8, 3: 5, 4: 3}[n_ops]
+        dss, meta = gen_inputs(rng, n_ops, config, max_rows=cap)
         names = list(dss)
         if config == "nested" and kind == "left_join" and not malformed:
-            names.sort(key=lambda n: -len(dss[n]["shape"].ids))      # the superset first
+            names.sort(key=lambda n: -len(dss[n]["shape"].ids))      # the operand carrying every identifier first (stable)
         using = None
         if config == "using_measure":
             using = ["K"]
@@ -444,13 +464,20 @@ def make_case(rng, malformed=False, tries=30):
         for cl in body:
             hist["clause:" + cl[0]] = hist.get("clause:" + cl[0], 0) + 1
         feat = {"kind": kind, "n_ops": n_ops, "config": config, "using": using is not None, "alias": alias_mode,
-                "dup_mode": meta["dup_mode"], "overlap": meta["overlap"], "body_len": len(body),
+                "dup_mode": meta["dup_mode"], "overlap": meta["overlap"], "body_len": len(body), "arrangement": meta["arrangement"],
+                "first_lacks_shared_id": _first_lacks_shared(ops, shapes),
                 "dup_names": any("#" in c.name for c in join_structure(kind, using, [(a, shapes[n]) for a, n in ops])),
                 "semantic": "ok" if r["ok"] else r["err"][1]}
         return {"dss": dss, "structs": structs, "dps": dps, "script": script, "coq": coq, "hist": hist, "rejected": rejected,
                 "feat": feat, "parts": {"kind": kind, "ops": ops, "ops_txt": ops_txt, "using": using, "body": body,
                                         "pre": [s for s in stmts if not s[3]]}}
     return None
+
+
+def _first_lacks_shared(ops, shapes) -> bool:
+    """an identifier missing in the first operand is shared by two later operands (the ON clause of the later one must use it)"""
+    ids = [set(n for n, _ in shapes[d].ids) for _, d in ops]
+    return any((ids[i] & ids[j]) - ids[0] for i in range(1, len(ids)) for j in range(i + 1, len(ids)))
 
 
 def rebuild(c, body=None, ops_idx=None):
@@ -566,7 +593,7 @@ def run_k(ctx, n_valid: int, n_malformed: int, tag="c04"):
     ctx.log(f"generated and ran {len(cases) - n_corpus} cases (+{n_corpus} corpus) on the engine")
     model = eval_model(cases, tag)
     ctx.log(f"model evaluated ({len(cases)} cases)")
-    dist: Dict[str, Dict[str, int]] = {k: {} for k in ("kind", "n_ops", "config", "using", "alias", "dup_mode", "overlap", "body_len",
+    dist: Dict[str, Dict[str, int]] = {k: {} for k in ("kind", "n_ops", "config", "arrangement", "first_lacks_shared_id", "using", "alias", "dup_mode", "overlap", "body_len",
                                                        "dup_names", "semantic", "result_rows", "engine_errors", "clauses")}
 
     def bump(k, v):
@@ -574,7 +601,7 @@ def run_k(ctx, n_valid: int, n_malformed: int, tag="c04"):
     dis = 0
     for i, (c, m) in enumerate(zip(cases, model)):
         f = c.get("feat", {})
-        for k in ("kind", "n_ops", "config", "using", "alias", "dup_mode", "body_len", "dup_names", "semantic"):
+        for k in ("kind", "n_ops", "config", "arrangement", "first_lacks_shared_id", "using", "alias", "dup_mode", "body_len", "dup_names", "semantic"):
             if k in f:
                 bump(k, f[k])
         for o in f.get("overlap", []):
